@@ -7,6 +7,7 @@ import (
 	"flag"
 	"fmt"
 	"go/types"
+	"golang.org/x/tools/go/packages"
 	"os"
 	"path/filepath"
 	"runtime/debug"
@@ -135,6 +136,7 @@ func runOne(id string, pc *propCheck, wp **World, root, verif, tier string, seed
 func resetCaches() {
 	rolesCache = nil
 	paramOwner = nil
+	aliasCache = map[*packages.Package]map[types.Object]*types.Var{}
 	closeCache = map[*FuncInfo]*closeAnalysis{}
 	predCache = map[*types.Func]*predSummary{}
 	helperMemo = map[string]*helperSummary{}
